@@ -3,9 +3,11 @@
 // Case lines:
 //
 //	C02.read <format> <bufsize> <input bytes, percent-escaped> <outcome> <records> <decoded>
+//	C02.readln <bufsize> <input> <lines returned by fileutils.Readln until its error, each followed by ",">
+//	C02.file <mode> <format> <input> <outcome> <records> <decoded> <open|noopen> <bytes the reader effectively had>
 //	C02.nest <depth> <outcome> <use class>
 //	C02.nestx <format> <depth> <outcome> <use class>
-//	C02.cli  <newick|nexus|phyloxml|nextstrain> <input> <outcome of `gotree reformat newick -i file --format f`> <lines written>
+//	C02.cli  <newick|nexus|phyloxml|nextstrain> <input> <outcome of `gotree reformat newick -i file --format f`> <lines written> <file|stdin|gz>
 //	C02.utf8 <bytes, percent-escaped> <code points read by bufio.Reader.ReadRune until EOF, each followed by ",">
 //	C02.clicmd <gotree sub-command> <format> <input: first record is an error, or a degenerate valid tree> <outcome>
 //	C02.lit  <literal, percent-escaped> <ParseInt(s,10,64): E|n> <ParseFloat(s,64): E|exact rational|nan|+inf|-inf>
@@ -22,13 +24,17 @@ package c02
 import (
 	"bufio"
 	"bytes"
+	"compress/gzip"
 	"fmt"
+	"os"
 	"strconv"
 	"strings"
+	"sync"
 	"time"
 
 	"verifharness/core"
 
+	"github.com/evolbioinfo/gotree/io/fileutils"
 	"github.com/evolbioinfo/gotree/io/phyloxml"
 	"github.com/evolbioinfo/gotree/tree"
 )
@@ -39,6 +45,8 @@ type request struct {
 	bufsize int
 	input   []byte
 	depth   int
+	expect  string // op dec: the generator's structure, or "E"
+	kind    string // op dec: valid | the kind of corruption
 }
 
 func (r request) line() string {
@@ -47,6 +55,9 @@ func (r request) line() string {
 	}
 	if r.op == "nestx" {
 		return "nestx\t" + r.format + "\t" + strconv.Itoa(r.depth)
+	}
+	if r.op == "file" {
+		return "file\t" + r.kind + "\t" + r.format + "\t" + core.Escape(string(r.input))
 	}
 	return "read\t" + r.format + "\t" + strconv.Itoa(r.bufsize) + "\t" + core.Escape(string(r.input))
 }
@@ -70,19 +81,101 @@ func execute(c *core.Ctx, reqs []request) {
 	}
 	nw := 4
 	res := runPool(jobs, nw)
+	shrunk := 0
 	for i, r := range reqs {
-		parts := strings.SplitN(res[i], "\t", 3)
-		for len(parts) < 3 {
+		// a crash of a read request is shrunk (delta debugging on the bytes, same kind of crash) so that the
+		// replay holds a minimal input; at most a few per run
+		if r.op == "read" && crashed(res[i]) && shrunk < 6 && len(r.input) > 1 {
+			shrunk++
+			in, rep := shrink(r, res[i], watchdog(c))
+			reqs[i].input, res[i] = in, rep
+			r = reqs[i]
+		}
+		parts := strings.SplitN(res[i], "\t", 5)
+		for len(parts) < 5 {
 			parts = append(parts, "")
 		}
 		if r.op == "nest" {
 			c.Emit("C02.nest", strconv.Itoa(r.depth), parts[0], parts[1])
 		} else if r.op == "nestx" {
 			c.Emit("C02.nestx", r.format, strconv.Itoa(r.depth), parts[0], parts[1])
+		} else if r.op == "file" {
+			c.Emit("C02.file", r.kind, r.format, core.Escape(string(r.input)), parts[0], parts[1], parts[2], parts[3], parts[4])
+		} else if r.op == "dec" {
+			c.Emit("C02.dec", r.format, core.Escape(string(r.input)), parts[0], parts[1], parts[2], r.expect, r.kind)
 		} else {
 			c.Emit("C02.read", r.format, strconv.Itoa(r.bufsize), core.Escape(string(r.input)), parts[0], parts[1], parts[2])
 		}
 	}
+}
+
+// crashed: the reply of a read request shows a crash of the reader or of the use of a delivered tree
+func crashed(reply string) bool {
+	parts := strings.SplitN(reply, "\t", 3)
+	if parts[0] != "ok" && parts[0] != "err" {
+		return true
+	}
+	return len(parts) > 1 && strings.Contains(parts[1], ":tree:panic")
+}
+
+// crashKind: what must stay the same while shrinking
+func crashKind(reply string) string {
+	parts := strings.SplitN(reply, "\t", 3)
+	if parts[0] != "ok" && parts[0] != "err" {
+		k := parts[0]
+		if len(k) > 40 {
+			k = k[:40]
+		}
+		return k
+	}
+	return "use-panic"
+}
+
+// shrink: ddmin over the input bytes, each candidate executed alone on a fresh pool of one worker.
+func shrink(r request, reply string, to time.Duration) ([]byte, string) {
+	kind := crashKind(reply)
+	if strings.HasPrefix(kind, "timeout") && to > 2*time.Second {
+		to = 2 * time.Second
+	}
+	try := func(in []byte) (string, bool) {
+		q := r
+		q.input = in
+		rep := runPool([]job{{q.line(), to}}, 1)[0]
+		return rep, crashed(rep) && crashKind(rep) == kind
+	}
+	cur, curRep := r.input, reply
+	budget := 120
+	n := 2
+	for len(cur) >= 2 && budget > 0 {
+		chunk := (len(cur) + n - 1) / n
+		reduced := false
+		for start := 0; start < len(cur) && budget > 0; start += chunk {
+			end := start + chunk
+			if end > len(cur) {
+				end = len(cur)
+			}
+			cand := append(append([]byte{}, cur[:start]...), cur[end:]...)
+			budget--
+			if rep, ok := try(cand); ok {
+				cur, curRep = cand, rep
+				reduced = true
+				if n > 2 {
+					n--
+				}
+				break
+			}
+		}
+		if !reduced {
+			if n >= len(cur) {
+				break
+			}
+			n *= 2
+			if n > len(cur) {
+				n = len(cur)
+			}
+		}
+	}
+	return cur, curRep
 }
 
 // Replay re-executes the requests of a corpus / replay file.
@@ -127,6 +220,29 @@ func Replay(c *core.Ctx, lines []string) {
 				panic(err)
 			}
 			emitLit(c, in)
+		case f[0] == "C02.readln" && len(f) >= 3:
+			in, err := core.Unescape(f[2])
+			if err != nil {
+				panic(err)
+			}
+			bs, _ := strconv.Atoi(f[1])
+			emitReadln(c, bs, []byte(in))
+		case f[0] == "C02.file" && len(f) >= 4:
+			in, err := core.Unescape(f[3])
+			if err != nil {
+				panic(err)
+			}
+			reqs = append(reqs, request{op: "file", kind: f[1], format: f[2], input: []byte(in)})
+		case f[0] == "C02.dec" && len(f) >= 7:
+			in, err := core.Unescape(f[2])
+			if err != nil {
+				panic(err)
+			}
+			k := "replay"
+			if len(f) >= 8 {
+				k = f[7]
+			}
+			reqs = append(reqs, request{op: "dec", format: f[1], input: []byte(in), expect: f[6], kind: k})
 		case f[0] == "C02.nestx" && len(f) >= 3:
 			d, _ := strconv.Atoi(f[2])
 			if c.Quick() && d > 100000 {
@@ -142,6 +258,7 @@ func Replay(c *core.Ctx, lines []string) {
 		}
 	}
 	execute(c, reqs)
+	flushCLI(c)
 }
 
 // Run generates the cases of C02.
@@ -199,6 +316,28 @@ func Run(c *core.Ctx) {
 	if c.Gotree != "" {
 		cliSweep(c)
 	}
+	// fileutils.Readln in the callers' loop, with small ReadLine buffers
+	nr := c.Scale(60, 2000)
+	for i := 0; i < nr; i++ {
+		emitReadln(c, 16+c.G.Intn(3)*5, genLinesDoc(c.G))
+	}
+	// file-level entry points (utils.ReadTree, GetReader + ReadMultiTrees): plain, gzip (sound, truncated,
+	// corrupted, not gzip at all) and missing files
+	nf := c.Scale(10, 250)
+	for _, f := range Formats {
+		for i := 0; i < nf; i++ {
+			r := genCase(c.G, f, 2000+i)
+			mode := []string{"plain", "gz", "gz", "gztrunc", "gzflip", "notgz", "missing"}[c.G.Intn(7)]
+			reqs = append(reqs, request{op: "file", kind: mode, format: f, input: r.input})
+		}
+	}
+	// the XML / JSON decoders: structure first, then its renderings and their corruptions
+	nd := c.Scale(120, 3000)
+	for _, f := range []string{"phyloxml", "phyloxmlm", "nextstrain", "nextstrainm"} {
+		for i := 0; i < nd; i++ {
+			reqs = append(reqs, genDec(c.G, f))
+		}
+	}
 	// nesting probes
 	depths := []int{1000, 10000, 100000}
 	if !c.Quick() && c.Seed%1000 == 0 {
@@ -217,6 +356,7 @@ func Run(c *core.Ctx) {
 		}
 	}
 	execute(c, reqs)
+	flushCLI(c)
 }
 
 // ------------------------------------------------------------------ documents
@@ -253,7 +393,7 @@ func genTree(g *core.G) (*core.N, *tree.Tree) {
 
 var degenerateNewick = []string{"(a);", "((a,b));", "();", "(,);", "((),());", "(a,b)c;", "(a)(b);", "((a));", "(a:1,b:2):3;",
 	"(a,b)[c];", "[pre](a,b);", "(a,a);", "( a , b );", "(a,b)0.5;", "((a,b)0.5/0.01,c);", "(a[x],b:1[y][z]);", "(a,b);(c,d);", "(a,(b,c)d:1)e;",
-	"(:1,:2);", "('a b',c);", "(a,b)0.5/0.1;", "(a,b)1/2:3;", "(a)1/2;", "(a,b)x/y;", "(a(b))x/y;", "(a(b))1/2;", "((a,b)x/1,c);", "(a,b)0.5;", "(a,b)0.5:1[c];", "(a,b):1;", "(a,b)[c]:1;", "(a\x00b,c);", "(\xffa,b);"}
+	"(:1,:2);", "('a b',c);", "(a)x ;", "((a,b)) y\t;", "(a) x y :1;", "(a,b)0.5/0.1;", "(a,b)1/2:3;", "((a,b)0.5/0.1/0.2,c);", "((a,b)1/2/x,c);", "((a,b)a/b/c,c);", "((a,b)/1,c);", "((a,b)1/,c);", "((a,b)//,c);", "(a)1/2;", "(a,b)x/y;", "(a(b))x/y;", "(a(b))1/2;", "((a,b)x/1,c);", "(a,b)0.5;", "(a,b)0.5:1[c];", "(a,b):1;", "(a,b)[c]:1;", "(a\x00b,c);", "(\xffa,b);"}
 
 func newickDoc(g *core.G) string {
 	if g.Chance(0.12) {
@@ -351,6 +491,10 @@ func nexusDoc(g *core.G) string {
 				k := len(tips)
 				if sloppy && g.Chance(0.3) {
 					k++
+				}
+				if g.Chance(0.12) {
+					// boundary values of the taxon count: 0 and negative numbers are numbers too, -1 means "not given"
+					k = []int{0, -1, -2, 1}[g.Intn(4)]
 				}
 				b.WriteString(fmt.Sprintf(" DIMENSIONS NTAX=%d%s;%s", k, g.Pick([]string{"", " FOO=bar", " NCHAR=3"}), eol))
 			}
@@ -563,7 +707,46 @@ func nextstrainDoc(g *core.G) string {
 	return b.String()
 }
 
+var oddNumbers = []string{"0.1", "0.3", "0.123456789", "1e-7", "123456789.123", "3.4028236e38", "1e39", "1e-46", "16777217", "0.30000000000000004",
+	"2.5e-324", "1.7976931348623157e308", "100", "1E2", "+1.5", "-0.25", "007", "1e+2", ".5", "5."}
+
+// oddNumber replaces one decimal literal of the document by a value that is not a small dyadic fraction
+// (rounding, exponent forms, float32 range) so that the numeric path of the parsers is tied as well.
+func oddNumber(g *core.G, doc string) string {
+	var spans [][2]int
+	i := 0
+	for i < len(doc) {
+		if doc[i] == ':' && i+1 < len(doc) && doc[i+1] >= '0' && doc[i+1] <= '9' {
+			j := i + 1
+			for j < len(doc) && (doc[j] >= '0' && doc[j] <= '9' || doc[j] == '.') {
+				j++
+			}
+			spans = append(spans, [2]int{i + 1, j})
+			i = j
+		} else {
+			i++
+		}
+	}
+	if len(spans) == 0 {
+		return doc
+	}
+	sp := spans[g.Intn(len(spans))]
+	return doc[:sp[0]] + g.Pick(oddNumbers) + doc[sp[1]:]
+}
+
 func validDoc(g *core.G, format string) string {
+	switch format {
+	case "newick", "multi", "nexus", "nexusm":
+		d := validDoc0(g, format)
+		if g.Chance(0.35) {
+			d = oddNumber(g, d)
+		}
+		return d
+	}
+	return validDoc0(g, format)
+}
+
+func validDoc0(g *core.G, format string) string {
 	switch format {
 	case "newick":
 		return newickDoc(g)
@@ -581,7 +764,7 @@ func validDoc(g *core.G, format string) string {
 // ------------------------------------------------------------------ malformed stream
 
 var dictText = []string{"(", ")", ",", ":", ";", "[", "]", "[&x", "=", " ", "\t", "\n", "\r", "\r\n", "  \n", " \t \n", "\x00", "\xff", "\xc3", "\xe2\x82", "'",
-	"1e999", "nan", "inf", "0x1p-2", "1_0", "/", "0.5/0.1", "()", "(,)", "((", "))", ":1", ":", ":x", "1e-3", "-1", "+.5", "9223372036854775808",
+	"1e999", "nan", "inf", "0x1p-2", "1_0", "/", "0.5/0.1", "0.5/0.1/0.2", "1/2/3", "()", "(,)", "((", "))", ":1", ":", ":x", "1e-3", "-1", "+.5", "9223372036854775808",
 	"MISSING=", "GAP=", "MISSING=?", "GAP=-", " FORMAT ", "BEGIN TREES;", "BEGIN DATA;", "BEGIN TAXA;", "END;", " TREE t = ", " TRANSLATE ", " MATRIX ",
 	" DIMENSIONS NTAX=", " NCHAR=", " NTAX ", " DATATYPE=", "#NEXUS", " TAXLABELS ", "begin foo;", "END", "é", " "}
 var dictXML = []string{"<", ">", "</clade>", "<clade>", "<clade/>", "<name>", "</name>", "<name/>", "<branch_length>", "x</branch_length>", "<branch_length>1e999</branch_length>",
@@ -665,7 +848,8 @@ var handText = []string{"", " ", "\n", " \n", "\t \n\n", ";", "(", ")", "((((", 
 	"#NEXUS\nBEGIN DATA;\nFORMAT MISSING=\n", "#NEXUS\nBEGIN DATA;\nFORMAT MISSING=", "#NEXUS\nBEGIN DATA;\nFORMAT GAP=\n", "#NEXUS\nBEGIN DATA;\nFORMAT GAP=;", "#NEXUS\nBEGIN DATA;\nFORMAT GAP",
 	"#NEXUS\nBEGIN DATA;\nFORMAT DATATYPE=", "#NEXUS\nBEGIN DATA;\nDIMENSIONS NTAX=", "#NEXUS\nBEGIN DATA;\nDIMENSIONS NTAX", "#NEXUS\nBEGIN DATA;\nDIMENSIONS NCHAR=x;", "#NEXUS\nBEGIN DATA;\nMATRIX", "#NEXUS\nBEGIN DATA;\nMATRIX\na",
 	"#NEXUS\nBEGIN DATA;\nMATRIX\na AC", "#NEXUS\nBEGIN DATA;\nMATRIX\na AC\n;", "#NEXUS\nBEGIN DATA;\nMATRIX\na AC\n;\nEND;", "#NEXUS\nBEGIN TAXA;\nDIMENSIONS", "#NEXUS\nBEGIN TAXA;\nTAXLABELS", "#NEXUS\nBEGIN TAXA;\nTAXLABELS a b",
-	"#NEXUS\nBEGIN TAXA;\nDIMENSIONS NTAX=2;\nTAXLABELS a b;\nEND;\nBEGIN TREES;\nTREE t=(a,b);\nEND;\n", "#NEXUS\nBEGIN TAXA;\nDIMENSIONS NTAX=3;\nTAXLABELS a b;\nEND;", "#NEXUS\nBEGIN FOO;", "#NEXUS\nBEGIN FOO;\nEND", "#NEXUS\nBEGIN ;",
+	"#NEXUS\nBEGIN TAXA;\nDIMENSIONS NTAX=2;\nTAXLABELS a b;\nEND;\nBEGIN TREES;\nTREE t=(a,b);\nEND;\n", "#NEXUS\nBEGIN TAXA;\nDIMENSIONS NTAX=3;\nTAXLABELS a b;\nEND;", "#NEXUS\nBEGIN TAXA;\nDIMENSIONS NTAX=0;\nTAXLABELS a b;\nEND;\nBEGIN TREES;\nTREE t=(a,b);\nEND;",
+	"#NEXUS\nBEGIN TAXA;\nDIMENSIONS NTAX=-1;\nTAXLABELS a b;\nEND;\nBEGIN TREES;\nTREE t=(a,b);\nEND;", "#NEXUS\nBEGIN TAXA;\nDIMENSIONS NTAX=-2;\nTAXLABELS a b;\nEND;\nBEGIN TREES;\nTREE t=(a,b);\nEND;", "#NEXUS\nBEGIN FOO;", "#NEXUS\nBEGIN FOO;\nEND", "#NEXUS\nBEGIN ;",
 	"#NEXUS\r", "#NEXUS\r\n\r", "#NEXUS\nBEGIN DATA;\nDIMENSIONS NTAX=1 NCHAR=2;\nFORMAT DATATYPE=dna MISSING=* GAP=-;\nMATRIX\na AC\n;\nEND;\n",
 	"#NEXUS\nBEGIN DATA;\nDIMENSIONS NTAX=1 NCHAR=2;\nFORMAT DATATYPE=dna;\nMATRIX\na AC\na GT\n;\nEND;\n", "#NEXUS\nBEGIN DATA;\nFORMAT DATATYPE=protein;\nMATRIX\na AC\nb G\n;\nEND;\n",
 	"#NEXUS\nBEGIN DATA;\nFORMAT DATATYPE=dna;\nMATRIX\na A!\n;\nEND;\n", "#NEXUS\nBEGIN TREES;\nTREE t = ();\nEND;", "#NEXUS\nBEGIN TREES;\nTREE t = (a);\nEND;", "#NEXUS\nBEGIN TREES;\nTRANSLATE 1 a, 2 a;\nTREE t = (1,2);\nEND;",
@@ -837,30 +1021,86 @@ func emitLit(c *core.Ctx, s string) {
 	c.Emit("C02.lit", core.Escape(s), ir, fr)
 }
 
-// doCLI pushes one input through the gotree binary built from the working tree.
-func doCLI(c *core.Ctx, format string, input []byte) {
-	file := c.TmpFile(string(input))
-	r := c.RunCLI("", 10*time.Second, "reformat", "newick", "-i", file, "--format", format)
-	out := "ok"
-	switch {
-	case r.Timeout:
-		out = "timeout"
-	case strings.Contains(r.Stderr, "panic: ") || strings.Contains(r.Stderr, "fatal error: ") || strings.Contains(r.Stderr, "goroutine "):
-		msg := r.Stderr
-		if i := strings.Index(msg, "panic: "); i >= 0 {
-			msg = msg[i:]
-		} else if i := strings.Index(msg, "fatal error: "); i >= 0 {
-			msg = msg[i:]
-		}
-		if j := strings.IndexByte(msg, '\n'); j >= 0 {
-			msg = msg[:j]
-		}
-		out = "panic:" + core.Escape(msg)
-	case r.Exit != 0:
-		out = "err"
+// The command-line cases are queued and run several at a time (one process each), then emitted in order.
+type cliJob struct {
+	args  []string
+	stdin string
+	emit  func(r core.CLIResult)
+}
+
+var cliQ []cliJob
+
+func flushCLI(c *core.Ctx) {
+	res := make([]core.CLIResult, len(cliQ))
+	var wg sync.WaitGroup
+	idx := make(chan int, len(cliQ))
+	for i := range cliQ {
+		idx <- i
 	}
-	nl := strings.Count(r.Stdout, "\n")
-	c.Emit("C02.cli", format, core.Escape(string(input)), out, strconv.Itoa(nl))
+	close(idx)
+	for k := 0; k < 6; k++ {
+		wg.Add(1)
+		go func() {
+			defer wg.Done()
+			for i := range idx {
+				res[i] = c.RunCLI(cliQ[i].stdin, 20*time.Second, cliQ[i].args...)
+			}
+		}()
+	}
+	wg.Wait()
+	for i, j := range cliQ {
+		j.emit(res[i])
+	}
+	cliQ = nil
+}
+
+// doCLI pushes one input through the gotree binary built from the working tree: as a plain file, on the
+// standard input (`-i -`), or as a gzip file.
+var cliCount int
+
+func doCLI(c *core.Ctx, format string, input []byte) {
+	cliCount++
+	transport := []string{"file", "stdin", "gz"}[cliCount%3]
+	// the --format option as cmd/root.go reads it: four exact words, anything else (or nothing) means newick
+	flag := format
+	switch cliCount % 11 {
+	case 3:
+		flag = strings.ToUpper(format)
+	case 5:
+		flag = "xml"
+	case 7:
+		flag = ""
+	case 9:
+		flag = "<omitted>"
+	}
+	args := []string{"reformat", "newick"}
+	if flag != "<omitted>" {
+		args = append(args, "--format", flag)
+	}
+	args = append(args, "-i")
+	format = flag
+	stdin := ""
+	switch transport {
+	case "stdin":
+		args = append(args, "-")
+		stdin = string(input)
+	case "gz":
+		var zb bytes.Buffer
+		zw := gzip.NewWriter(&zb)
+		zw.Write(input)
+		zw.Close()
+		p := c.TmpFile("") + ".gz"
+		if err := os.WriteFile(p, zb.Bytes(), 0644); err != nil {
+			panic(err)
+		}
+		args = append(args, p)
+	default:
+		args = append(args, c.TmpFile(string(input)))
+	}
+	cliQ = append(cliQ, cliJob{args, stdin, func(r core.CLIResult) {
+		nl := strings.Count(r.Stdout, "\n")
+		c.Emit("C02.cli", format, core.Escape(string(input)), cliOutcome(r), strconv.Itoa(nl), transport)
+	}})
 }
 
 // ------------------------------------------------------------------ bytes -> runes
@@ -989,6 +1229,38 @@ func cliOutcome(r core.CLIResult) string {
 func doCLICmd(c *core.Ctx, cm string, format string, input []byte) {
 	file := c.TmpFile(string(input))
 	args := append(strings.Fields(cm), "-i", file, "--format", format)
-	r := c.RunCLI("", 10*time.Second, args...)
-	c.Emit("C02.clicmd", core.Escape(cm), format, core.Escape(string(input)), cliOutcome(r))
+	cliQ = append(cliQ, cliJob{args, "", func(r core.CLIResult) {
+		c.Emit("C02.clicmd", core.Escape(cm), format, core.Escape(string(input)), cliOutcome(r))
+	}})
+}
+
+// ------------------------------------------------------------------ Readln
+
+func genLinesDoc(g *core.G) []byte {
+	var b bytes.Buffer
+	n := g.Intn(6)
+	for i := 0; i < n; i++ {
+		l := g.Intn(40)
+		if g.Chance(0.2) {
+			l = 14 + g.Intn(6) // around the buffer size
+		}
+		for k := 0; k < l; k++ {
+			b.WriteByte("ab ;\t\r,"[g.Intn(7)])
+		}
+		b.WriteString(g.Pick([]string{"\n", "\n", "\r\n", "\r", ""}))
+	}
+	return b.Bytes()
+}
+
+func emitReadln(c *core.Ctx, bufsize int, in []byte) {
+	r := bufio.NewReaderSize(bytes.NewReader(in), bufsize)
+	var lines []string
+	for k := 0; k < 100000; k++ {
+		l, err := fileutils.Readln(r)
+		if err != nil {
+			break
+		}
+		lines = append(lines, l)
+	}
+	c.Emit("C02.readln", strconv.Itoa(bufsize), core.Escape(string(in)), core.StrList(lines))
 }
